@@ -215,6 +215,29 @@ class ContainersMixin:
                     parts.append(sep)
                 parts.append(ip.deref(rv.items[j]))
             return self.concat(parts) if parts else S("")
+        if name in ("binary_search", "binary_search_by_key", "binary_search_by"):
+            # specification-level model (std: any matching index may be returned; on a sorted slice
+            # Err carries the insertion point). We return the first match / the number of smaller elements;
+            # callers that depend on WHICH equal element is found are outside the model.
+            args = A()
+            seq = self.vec_seq(rv)
+            found = False
+            pos = None
+            less = I(0, "usize")
+            for j, (p, it) in reversed(list(enumerate(seq))):
+                if name == "binary_search":
+                    o = ip.cmp(it, ip.deref(args[0]))
+                elif name == "binary_search_by_key":
+                    o = ip.cmp(ip.call_value(args[1], [it]), ip.deref(args[0]))
+                else:
+                    o = ip.deref(ip.call_value(args[0], [it]))
+                hit = band(p, ip.tag_eq(o, 1))
+                pos = I(j, "usize") if pos is None else ite(hit, I(j, "usize"), pos)
+                found = bor(found, hit)
+                less = ite(band(p, ip.tag_eq(o, 0)), self.binop("Add", less, I(1, "usize")), less)
+            if pos is None:
+                return err(I(0, "usize"))
+            return En("Result", ite(found, I(0), I(1)).v, {0: [pos], 1: [less]})
         if name == "dedup":
             raise Unsupported("Vec::dedup")
         if name == "swap":
